@@ -2,7 +2,7 @@
    Statements only; proofs are in Proofs/MuxProofs.v; the model is Model/MuxHeader.v + Model/Mux.v
    (tied to node/components/network/src/mux/*.rs by the differential check of gen/c14.py). *)
 From Coq Require Import ZArith List Bool Lia Sorting.Sorted.
-From EC Require Import Lib.Outcome Lib.Obs Model.MuxHeader Model.Mux Proofs.MuxProofs Proofs.MuxRefine Proofs.MuxControl Proofs.MuxWire Proofs.MuxPair.
+From EC Require Import Lib.Outcome Lib.Obs Model.MuxHeader Model.Mux Proofs.MuxProofs Proofs.MuxRefine Proofs.MuxControl Proofs.MuxWire Proofs.MuxPair Proofs.MuxHandles.
 Import ListNotations.
 Open Scope Z_scope.
 
@@ -257,7 +257,7 @@ Theorem C14_pair_never_fails : forall a b s, side_ok a -> side_ok b -> reachable
 Proof. exact pair_never_fails. Qed.
 Print Assumptions C14_pair_never_fails.
 
-(* per incarnation: while R's read half (stream (opp ks, i)) is held by the reader admitted on the n-th
+(* per incarnation: while R's read half (stream (opp ks, i)) is held by the reader let in on the n-th
    OPEN, the bytes read_exact has taken are a prefix of the payload S's stream (ks, i) handed to its
    writer task for ITS n-th incarnation (writer: handle w); after end-of-stream they are all of it and
    that incarnation is closed.  Data of no other stream, handle or incarnation can appear. *)
@@ -273,16 +273,93 @@ Theorem C14_stream_isolation_and_order : forall a b s ks i ss sr,
 Proof. exact stream_isolation_and_order. Qed.
 Print Assumptions C14_stream_isolation_and_order.
 
+(* ======================================================================================
+   End to end, stage (iv): the handles of the two applications (Proofs/MuxHandles.v).
+   Ghost histories: [returned r] = the bytes the completed reads of handle r have returned (in order),
+   [pendb sr] = the chunks of its read in progress, [wdata w n] = the first n bytes of the data of
+   handle w (the model's applications write [data_byte w k] at offset k; [sl_woff rw] = number of
+   bytes written through rw so far).  [ep s true] = side A, [ep s false] = side B.
+   In EVERY reachable state of the pair (settle scheduler, any script of application operations),
+   for a live reader handle r of either side on reusable stream (kind, i):
+     - there is ONE handle rw of the OTHER side, of the opposite queue kind, writer of the incarnation
+       of the paired stream (opp kind, i) that r was let in on (the n-th OPEN <-> the n-th entry of
+       the writer log);
+     - the bytes r's reads returned, plus those of the read in progress, are a prefix of the bytes the
+       writer task took for that incarnation, themselves a prefix of what the application wrote
+       through rw: in order, nothing lost, nothing duplicated, nothing of any other handle, stream
+       or incarnation;
+     - once a read of r reported end of stream: nothing is pending, r has returned exactly ALL bytes
+       written through rw, and rw's write half is closed.
+   ====================================================================================== *)
+Theorem C14_handle_isolation_and_order : forall a b s (rd : bool) r i sr,
+  side_ok a -> side_ok b -> reachable false a b s ->
+  In r (e_slots (ep s rd)) -> sl_r r = true -> sl_sid r = Some i -> get_stream (ep s rd) (sl_kind r) i = Some sr ->
+  exists ss w cs rw,
+    get_stream (ep s (negb rd)) (opp (sl_kind r)) i = Some ss /\
+    nth_error (rev (g_wlog (s_g ss))) (pred (g_rn (s_g sr))) = Some (w, cs) /\
+    In rw (e_slots (ep s (negb rd))) /\ sl_id rw = w /\ (sl_kind rw =? 0) = (opp (sl_kind r) =? 0) /\
+    returned r ++ pendb sr = rdb sr /\
+    is_prefix (rdb sr) (chunks_bytes cs) /\ is_prefix (chunks_bytes cs) (wdata w (sl_woff rw)) /\
+    is_prefix (returned r) (wdata w (sl_woff rw)) /\
+    (g_eos (sl_g r) = true -> pendb sr = [] /\ returned r = wdata w (sl_woff rw) /\ sl_w rw = false).
+Proof. exact handle_isolation_and_order. Qed.
+Print Assumptions C14_handle_isolation_and_order.
+
+(* the invariant behind it, for every reachable state: pinv +, per endpoint, identity bookkeeping of
+   handles (SU), reader links (RL), writer links (WL, WC) and the end-of-stream link (RE) *)
+Theorem C14_handle_invariant : forall a b s, side_ok a -> side_ok b -> reachable false a b s -> hinv s.
+Proof. exact reachable_hinv. Qed.
+Print Assumptions C14_handle_invariant.
+
+(* the two reusable streams of a pair carry the same capability (both sides derive the same table from
+   the two limit maps, and no transition changes it): the counterpart of a handle sits on a queue of
+   the same capability, of the opposite kind (a handle is only ever handed a stream of the capability
+   of the queue it waits on: invariant K, field K3, and queue_step) *)
+Theorem C14_paired_streams_same_capability : forall a b s ks i ss sr, side_ok a -> side_ok b -> reachable false a b s ->
+  (get_stream (sA s) ks i = Some ss /\ get_stream (sB s) (opp ks) i = Some sr \/
+   get_stream (sB s) ks i = Some ss /\ get_stream (sA s) (opp ks) i = Some sr) ->
+  s_cap ss = s_cap sr.
+Proof. exact paired_streams_same_capability. Qed.
+Print Assumptions C14_paired_streams_same_capability.
+
+(* non-vacuity of stage (iv): in the worked example, after the writer closed, handle 2 of side B is a
+   live reader that has seen end of stream and has returned exactly the 500 bytes of handle 1 of side A *)
+Example C14_handles_nonvacuous :
+  let a := mkSide (mkCfg 100 1000 10 150) [(0, 2)] [(0, 2); (3, 1)] in
+  let b := mkSide (mkCfg 80 800 7 79) [(0, 3); (3, 1)] [(0, 1)] in
+  let ops := [OOpen 0 1 0 1; OOpen 1 0 0 2; OWrite 1 500; ORead 2 100; OFlush 1; ORead 2 500; ODropW 1] in
+  let s := fold_left step_sys ops (sys_start false a b) in
+  side_ok a /\ side_ok b /\ reachable false a b s /\
+  exists r rw, In r (e_slots (ep s false)) /\ sl_id r = 2 /\ sl_r r = true /\ g_eos (sl_g r) = true /\
+    In rw (e_slots (ep s true)) /\ sl_id rw = 1 /\ sl_w rw = false /\ sl_woff rw = 500 /\
+    returned r = wdata 1 500.
+Proof.
+  cbv zeta.
+  assert (Hs : forall c acc con, mux_verify c (bt_of_list acc) (bt_of_list con) = true -> cfg_ok c ->
+     forallb (fun v => 0 <=? v) (map snd (bt_of_list acc)) = true -> forallb (fun v => 0 <=? v) (map snd (bt_of_list con)) = true ->
+     side_ok (mkSide c acc con)).
+  { intros c acc con A B C D. unfold side_ok. cbn [sd_cfg sd_acc sd_con]. split; [exact A|]. split; [exact B|].
+    split; apply Forall_forall; intros v Hv; [rewrite forallb_forall in C; specialize (C v Hv)|rewrite forallb_forall in D; specialize (D v Hv)]; apply Z.leb_le; assumption. }
+  split; [apply Hs; [vm_compute; reflexivity|unfold cfg_ok; cbn; lia|vm_compute; reflexivity|vm_compute; reflexivity]|].
+  split; [apply Hs; [vm_compute; reflexivity|unfold cfg_ok; cbn; lia|vm_compute; reflexivity|vm_compute; reflexivity]|].
+  split; [eexists; reflexivity|].
+  vm_compute. do 2 eexists. split; [left; reflexivity|]. repeat split; try reflexivity. left; reflexivity. reflexivity. reflexivity. reflexivity.
+Qed.
+
 (* ---- what remains of the full statement: NOT proved (see `partial` in evidence/C14.json) ----
-   stream_isolation_and_order for the composed two-sided system: the bytes a handle has read are a
-   prefix of the bytes its counterpart (a handle of the other side, same capability, opposite queue
-   kind) wrote, and complete when end-of-stream is reported.  Stated on the observations of the
-   model ([slot; 1; want; len; hash] events; data of handle w at offset k is [data_byte w k]).
-   The per-component ingredients are proved above (write framing, FIFO transport, routing, isolation
-   inside an endpoint, in-order loss-free read_exact, EOS only after CLOSE, frames after a CLOSE
-   invisible); their composition across the byte-level wire, the chunking dispatcher and the
-   OPEN/CLOSE incarnation boundaries is covered by the differential correspondence and the
-   predicates of gen/c14.py only. *)
+   C14_handle_isolation_and_order is the full statement as an invariant of the STATES of the pair
+   system, on ghost histories.  The statement below is its rephrasing on the OBSERVATIONS of a script
+   ([slot; 1; want; len; hash] events).  Between the two, not formalised:
+     - the event emitted by complete_read carries the length and hash of exactly the chunk it appends
+       to [g_rd] (same transition; immediate, but the collection of events over rounds is not proved);
+     - a handle whose read half has been dropped keeps its history (the links are stated for live
+       readers; nothing writes [g_rd] afterwards, not proved);
+     - the two handles were opened on queues of the SAME capability: proved for the paired reusable
+       streams (C14_paired_streams_same_capability) and opposite kinds; that a handle only receives a
+       stream of the capability it asked for is K3 + queue_step, but handles do not record the
+       capability they were opened with, so the end-to-end sentence is not a theorem;
+     - configurations outside [side_ok] (e.g. write_frame_size = 0, refused or degenerate);
+     - the scheduler: [settle] runs both endpoints to quiescence after every operation. *)
 Definition ev_read (o : obsv) : list (Z * Z * Z * Z) :=
   match o with OL [OZ s; OZ 1; OZ w; OZ l; OZ h] => [(s, w, l, h)] | _ => [] end.
 Definition round_reads (o : obsv) : list (Z * Z * Z * Z) :=
@@ -301,7 +378,7 @@ Definition C14_remaining_isolation_and_order : Prop :=
         let off := fold_right (fun y acc => snd (fst y) + acc) 0 pre in
         snd x = hash_bytes (gen_bytes (data_byte w) off (snd (fst x))).
 
-(* the full property = the theorems above + this remaining statement *)
+(* observation form of the full property; its state form is C14_handle_isolation_and_order (proved) *)
 Definition C14_full : Prop := C14_remaining_isolation_and_order.
 
 (* non-vacuity of the system-level theorems: a reachable state in which B's application holds one
